@@ -83,7 +83,7 @@ pub fn check(ls: &LangSet, code: &str, s: &str, w: &str, shift: usize) -> (usize
 
 pub fn run(ctx: &Ctx) -> Outcome {
     let n_texts = ctx.n(600_000, 12_000_000);
-    let rep = run_sharded(ctx, |wk, nw, rep| {
+    let mut rep = run_sharded(ctx, |wk, nw, rep| {
         let ls = LangSet::new();
         let mut rng = Rng::derive(ctx.seed, "C17", wk as u64);
         for i in 0..(n_texts / nw as u64) {
@@ -106,6 +106,9 @@ pub fn run(ctx: &Ctx) -> Outcome {
             }
         }
     });
+    if !ctx.quick() {
+        super::legs::fuzz_leg(ctx, &mut rep, 45);
+    }
     let rule = "cases = (text, text with every maximal whitespace run replaced by a random run of 1..3 elements over {space, double space, tab, LF, CRLF, NBSP, thin, em, ideographic, U+2028} and runs added at either end); compared: validation result, occurrences tuple for tuple (spans shifted by the added leading token) at thresholds 0,3,10, rewrite of the substituted text against the splice of its own tokens, and both rewrites modulo whitespace; non-trivial = at least one whitespace run substituted and one number recognised";
     finish(ctx, rep, rule, &["only char::is_whitespace characters are used (zero-width space is not whitespace)"], vec![])
 }
